@@ -229,6 +229,36 @@ func historyWL(x *mon.Ctx) {
 					}
 					h = old
 				}
+			case op < 10 && c.R.Intn(2) == 0: // an import that must be refused leaves the running state alone
+				name = "Unmarshal(refused)"
+				c.Class("hist/badimport/nx=%d", len(model)%64)
+				donor := sm3.New()
+				donor.Write(c.R.Bytes(c.R.Intn(200)))
+				st, _ := donor.(encoding.BinaryMarshaler).MarshalBinary()
+				var bad []byte
+				switch c.R.Intn(5) {
+				case 0:
+					bad = st[:len(st)-1-c.R.Intn(len(st)-1)]
+				case 1:
+					bad = append(append([]byte{}, st...), c.R.Bytes(c.R.Range(1, 40))...)
+				case 2:
+					bad = append([]byte{}, st...)
+					bad[c.R.Intn(4)] ^= 0x20
+				case 3:
+					bad = nil
+				default:
+					bad = c.R.Bytes(len(st))
+					bad[0] = 'x'
+				}
+				var err error
+				if !c.Call("UnmarshalBinary(malformed)", func() { err = h.(encoding.BinaryUnmarshaler).UnmarshalBinary(bad) }) {
+					s = steps
+					break
+				}
+				if err == nil {
+					c.Fail("accept", "UnmarshalBinary accepted a malformed %d-byte state (a valid one has %d bytes)", len(bad), len(st))
+					s = steps
+				}
 			default: // AppendBinary / size queries
 				name = "Size"
 				if h.Size() != 32 || h.BlockSize() != 64 {
